@@ -317,6 +317,10 @@ SUMMARIES.update(
         "_asyncio.Task.done": Summary(NONE, "total"),
         "asyncio.events.AbstractEventLoop.run_in_executor": Summary(_executor_raises, "the callable's exceptions surface at the await: OSError when a file-system function (a parameter of path type) is handed over; the repository never shuts an executor down"),
         "asyncio.base_events.BaseEventLoop.run_in_executor": Summary(_executor_raises, "as above"),
+        "asyncio.transports.WriteTransport.get_write_buffer_size": Summary(NONE, "total"),
+        "asyncio.transports.BaseTransport.is_closing": Summary(NONE, "total"),
+        "asyncio.transports.BaseTransport.get_extra_info": Summary(NONE, "total"),
+        "asyncio.streams.StreamWriter.is_closing": Summary(NONE, "total"),
         "copy.copy": Summary(NONE, "shallow copy of repo objects"),
         "copy.deepcopy": Summary(_deepcopy_raises, "deepcopy recurses in Python frames (about two per nesting level): data of unbounded depth (Any - e.g. a parsed JSON document, which json.loads accepts far deeper than the interpreter's recursion limit allows here) raises RecursionError; repository objects and flat typed containers do not"),
         "tempfile.mkstemp": Summary([OSE], "file creation"),
